@@ -201,6 +201,18 @@ pub fn corpus() -> Vec<(&'static str, Value)> {
     ("ls_eq_lp:theta_explicit:pp_off:idler_auto", base(775., 775., json!(90), Value::Null, json!("auto"), 0.)),
     ("nan_cost:signal_80deg:theta_auto", base(1550., 775., json!("auto"), Value::Null, json!("auto"), 80.)),
     ("nan_cost:signal_400deg:theta_auto", base(1550., 775., json!("auto"), Value::Null, json!("auto"), 400.)),
+    ("nan_cost:signal_external_318deg:theta_auto", {
+      let mut j = base(1550., 775., json!("auto"), Value::Null, json!("auto"), 0.);
+      j["signal"].as_object_mut().unwrap().remove("theta_deg");
+      j["signal"]["theta_external_deg"] = json!(318.5);
+      j
+    }),
+    ("signal_external_318deg:theta_explicit", {
+      let mut j = base(1550., 775., json!(90), Value::Null, json!("auto"), 0.);
+      j["signal"].as_object_mut().unwrap().remove("theta_deg");
+      j["signal"]["theta_external_deg"] = json!(318.5);
+      j
+    }),
     ("signal_80deg:pp_auto", base(1550., 775., json!(90), ppa.clone(), json!("auto"), 80.)),
     ("zero_period", base(1550., 775., json!(90), json!({"poling_period_um": 0.0}), json!("auto"), 0.)),
     ("auto_theta_with_poling", base(1550., 775., json!("auto"), ppe.clone(), json!("auto"), 0.)),
